@@ -135,6 +135,147 @@ def h03_stop(S, n_msgs=1, kinds=(0, 1, 2, 3), max_step=90):
             S.check("dead-only-by-nack", "nack" in started, info=f"{mid}: {trace}")
 
 
+def h03_redis_death(S):
+    """A Redis consumer's process dies after any number of round trips; a new process connects later."""
+    from engine.vtime import PinnedClock
+    from fakes import redis as fr
+    from repid.data._key import RoutingKey
+    import repid.data._parameters as P
+    from harness.common import Y2000, Y2050, SEC
+
+    die_after = S.pick("dies_after_round_trips", 8)
+    origin = S.pick("origin", 2)          # 0 waiting, 1 due delayed
+    t_take = S.int("take_at_us", Y2000, Y2050)
+    tau = S.int("execution_timeout_us", SEC, 3600 * SEC)
+    elapsed = S.int("new_process_connects_after_us", 0, 2 * 3600 * SEC)
+    clock = PinnedClock(t_take)
+    out = {}
+    S.tag("dies_after", die_after)
+
+    async def main(loop):
+        srv = fr.FakeServer(clock=lambda: clock.time())
+        b0 = fr.mk_broker(srv, "producer")
+        key = RoutingKey(topic="job", queue="default", id_="m1")
+        params = P.Parameters(execution_timeout=S.timedelta_us(tau), timestamp=S.datetime_us(t_take - 10 * SEC),
+                              delay=P.DelayProperties(next_execution_time=S.datetime_us(t_take - 5 * SEC) if origin else None))
+        await b0.enqueue(key, "p", params)
+        b1 = fr.mk_broker(srv, "victim")
+        c1 = b1.get_consumer("default", ["job"])
+        c1.POLLING_WAIT = 0
+        b1.conn.die_after = die_after
+        t = asyncio.ensure_future(c1.consume_or_none())
+        for _ in range(60):
+            await asyncio.sleep(0)
+        out["victim_got"] = t.result() if t.done() else "hung"
+        out["places_at_death"] = fr.redis_places(srv)
+        # (the victim's task is simply abandoned: a dead process runs no cleanup)
+        clock.set(t_take + elapsed)
+        b2 = fr.mk_broker(srv, "successor")
+        await b2.connect()                      # runs maintenance
+        c2 = b2.get_consumer("default", ["job"])
+        c2.POLLING_WAIT = 0
+        out["got"] = await c2.consume_or_none()
+        out["places_after"] = fr.redis_places(srv)
+        t.cancel()
+
+    run_async(main, clock=clock)
+    at_death = place_names(out["places_at_death"], "m1")
+    S.check("message-in-exactly-one-place-at-death", at_death in (["waiting"], ["delayed"], ["processing"]), info=str(at_death))
+    if at_death == ["processing"]:
+        S.cover("died-holding-the-message")
+        if out["got"] is not None:
+            S.cover("redelivered")
+            S.check("not-redelivered-before-the-timeout-elapsed", elapsed > tau,
+                    info="redelivered to another consumer before the execution timeout had elapsed")
+        else:
+            S.cover("still-in-flight")
+            S.check("recoverable-once-the-timeout-elapsed", elapsed <= tau + SEC,
+                    info="timeout elapsed (by more than a second) and maintenance ran, but the message was not redelivered")
+            S.check("kept-in-flight-not-lost", place_names(out["places_after"], "m1") == ["processing"], info=str(out["places_after"]))
+    else:
+        S.cover("died-before-taking")
+        S.check("untaken-message-is-delivered-to-the-successor", out["got"] is not None and out["got"][0].id_ == "m1",
+                info=f"at death: {at_death}, successor got {out['got']}")
+
+
+def h03_redis_stop(S, max_step=140):
+    """Worker.run() on the fake Redis server, stop signal at every loop step."""
+    from fakes import redis as fr
+    from repid import Connection, Job, Router, Worker
+    from repid.converter import BasicConverter
+
+    kind = S.pick("actor_kind", 3)        # succeed / fail with retry left / fail exhausted
+    n_msgs = 2
+    k = S.pick("stop_at_loop_step", max_step) + 1
+    g = Fraction(2, 1000) if S.flag("graceful_period_shorter_than_actor") else Fraction(20, 1000)
+    S.tag("kind", KINDS[kind])
+    out = {}
+    runs = []
+
+    async def main(loop):
+        srv = fr.FakeServer()
+        br = fr.mk_broker(srv)
+        conn = Connection(br)
+        r = Router()
+
+        @r.actor(converter=BasicConverter, retry_policy=lambda retry_number=1: real_timedelta(seconds=30))
+        async def job(i: int):
+            runs.append(i)
+            await asyncio.sleep(Fraction(5, 1000))
+            if kind:
+                raise ValueError("x")
+
+        for i in range(n_msgs):
+            await Job("job", args={"i": i}, id_=f"m{i}", retries=1 if kind == 1 else 0, _connection=conn).enqueue()
+        worker = Worker(routers=[r], handle_signals=[signal.SIGTERM], _connection=conn, graceful_shutdown_time=g, tasks_limit=1)
+        fired = {}
+        base = loop.iters
+
+        def hook(lp):
+            if lp.iters == base + k and "t" not in fired:
+                if lp.fire_signal():
+                    fired["t"] = lp.time()
+            if lp.iters == base + 400 and "t" not in fired:
+                lp.fire_signal()
+
+        prev = loop.iter_hook
+        loop.iter_hook = hook
+        try:
+            await asyncio.wait_for(worker.run(), timeout=60)
+            out["returned"] = True
+        except asyncio.TimeoutError:
+            out["returned"] = False
+        out["elapsed"] = loop.time() - fired["t"] if "t" in fired else None
+        loop.iter_hook = prev
+        await asyncio.sleep(Fraction(1, 2))
+        out["places"] = fr.redis_places(srv)
+        out["msgs"] = {f"m{i}": fr.redis_message(srv, __import__("repid").data._key.RoutingKey(topic="job", queue="default", id_=f"m{i}")) for i in range(n_msgs)}
+
+    run_async(main)
+    S.check("run-returns", out["returned"])
+    if not out["returned"] or out["elapsed"] is None:
+        S.cover("signal-before-handler-registration")
+        return
+    S.cover("stopped")
+    S.check("returns-within-graceful-period-plus-slack", out["elapsed"] <= g + 6 + Fraction(1, 100), info=str(out["elapsed"]))
+    for i in range(n_msgs):
+        mid = f"m{i}"
+        names = place_names(out["places"], mid)
+        S.check("at-most-one-copy", len(names) <= 1, info=f"{mid}: {names}")
+        if "processing" in names:
+            S.tag("left_in_flight", "executed" if i in runs else "never-executed")
+        S.check("nothing-stays-marked-in-flight", "processing" not in names,
+                info=f"{mid} is still in the processing set after the worker returned (runs={runs})")
+        if names == []:
+            S.cover("gone")
+            S.check("vanished-message-was-completed", i in runs and kind == 0 and out["msgs"][mid] is None,
+                    info=f"{mid} is in no place; runs={runs}")
+        if names in (["waiting"],) and kind == 1:
+            import json
+            tried = json.loads(out["msgs"][mid]["parameters"])["retries"]["already_tried"]
+            S.check("returned-with-counter-unchanged", tried == 0 or i in runs, info=f"{mid}: already_tried={tried}")
+
+
 HARNESSES = [
     Harness(
         name="H03-stop-mem", scenario=h03_stop, workers=16, budget_s=900,
@@ -151,4 +292,20 @@ HARNESSES = [
         stubs=["signal delivery = the captured handler is called at the start of loop iteration k"],
     ),
 ]
-ASSUMPTIONS = ["in-memory broker on the virtual-time loop; loop step granularity for the crash point"]
+HARNESSES += [
+    Harness(name="H03-redis-death", scenario=h03_redis_death, workers=16, budget_s=900,
+            bounds={"process death": "after 0..7 Redis round trips of consume_or_none() (before the fetch, between fetch and take, between take and detail reads, after)",
+                    "take instant": "any µs in 2000..2050", "execution timeout": "any µs in [1 s, 1 h]", "successor connects after": "any µs in [0, 2 h]",
+                    "origin": "waiting or due-delayed message"},
+            functions=["connections/redis/consumer.py:_RedisConsumer.consume_or_none", "connections/redis/message_broker.py:RedisMessageBroker.maintenance",
+                       "connections/redis/message_broker.py:RedisMessageBroker.connect"],
+            covers=["died-holding-the-message", "died-before-taking", "redelivered", "still-in-flight"],
+            stubs=["fake Redis server; process death = the client's next round trip never completes and its task is abandoned"]),
+    Harness(name="H03-redis-stop", scenario=h03_redis_stop, workers=16, budget_s=900,
+            params={"quick": {"max_step": 140}, "thorough": {"max_step": 220}},
+            bounds={"stop request": "SIGTERM handler at every loop step 1..140 (quick) / 1..220 (thorough)", "messages": "2 (one executing, one prefetched; tasks_limit=1)",
+                    "graceful period": "2 ms or 20 ms (actor sleeps 5 ms)", "actor": "succeeds / fails with a retry left / fails exhausted"},
+            functions=["connections/redis/consumer.py:_RedisConsumer.finish", "connections/redis/consumer.py:_RedisConsumer.backgroud_consume", "worker.py:Worker.run"],
+            covers=["stopped"], stubs=["fake Redis server"]),
+]
+ASSUMPTIONS = ["virtual-time loop; loop step granularity for the crash point; Redis server is a fake"]
